@@ -303,6 +303,11 @@ def check_bufsweep(ctx, m, tn, der, syn, out, ret, chunks, label):
     line = "bufsweep %s der %s %s %d" % (tn, der, syn, total + 1)
     rep = {"module": m["text"], "type": tn, "der": der, "syntax": syn, "command_line": line, "label": label}
     segs = out.split(" | ")
+    if "DIED" in out and "sig=6" not in out:
+        bad = [sg for sg in segs if "DIED" in sg][0]
+        run.violation("crash:to_buffer(%s)" % syn, dict(rep, c=bad, replay_cmd="tobuf7 %s der %s %s %s" % (tn, der, syn, kv(bad).get("s", "?")),
+                                                      what="the process died in asn_encode_to_buffer (sanitizer report: write beyond the buffer, or signal) at [%s]" % bad))
+        return
     if len(segs) != total + 2:
         run.violation("oracle:to_buffer(%s)" % syn, dict(rep, what="unexpected driver output", c=out[:800]))
         return
